@@ -43,7 +43,7 @@ checks = [
  chk("C09","Seeded deterministic simulation with the hash-seed source (getrandom) as a simulator-owned seam: every generated rule list is built 8 times on fresh threads under different hash keys, allocator policies and order-preserving chunkings, and for ~5% of lists again in a child process (thorough: with the kernel's real getrandom); all buffers must be byte-identical, and four reload variants, a tags-enabled pair and three load histories (rejected load, image of an empty engine, then the tagged image) must reproduce the buffer exactly.",
      "deterministic simulation: simulator-owned hash seeds / threads / processes, byte-for-byte comparison of serialized buffers and reload fixpoint","DESIGN.md section 4 (C09)",
      "Trusted base: the getrandom interposition (evidence reports how many distinct iteration orders it induced), the generator. Stability across versions/platforms is not claimed."),
- chk("C10","Fault enumeration on a simulated disk between serialize_raw and deserialize: for every sampled buffer every prefix (torn write), every single-bit flip, every stale-tail cut against an older image, the lost write, 20 marker substitutions at every msgpack value offset, string substitution (27 degenerate strings for every stored string), JSON mutation and whole-value substitution are enumerated completely; zeroed/duplicated ranges, multi-byte corruption and free-form strings under every header variant are sampled. Each case is loaded into a non-empty engine under catch_unwind and allocator accounting: Err must leave bytes, tags and answers unchanged; Ok must be followed by total queries, simulated time passing (181 s, 31 s) with queries, a tag switch and re-serialization; allocation is bounded; worker-process death is a violation; every 50th case is followed by the same bytes again (an Err stays an Err) and by a fault-free load of the pristine image under another tag set that must behave like the engine the image was taken from.",
+ chk("C10","Fault enumeration on a simulated disk between serialize_raw and deserialize: for every sampled buffer every prefix (torn write), every single-bit flip, every stale-tail cut against an older image, the lost write, 20 marker substitutions at every msgpack value offset, string substitution (29 degenerate or hostile strings for every stored string), JSON mutation and whole-value substitution are enumerated completely; zeroed/duplicated ranges, multi-byte corruption and free-form strings under every header variant are sampled. Each case is loaded into a non-empty engine under catch_unwind and allocator accounting: Err must leave bytes, tags and answers unchanged; Ok must be followed by total queries, simulated time passing (181 s, 31 s) with queries, a tag switch and re-serialization; allocation is bounded; worker-process death is a violation; every 50th case is followed by the same bytes again (an Err stays an Err) and by a fault-free load of the pristine image under another tag set that must behave like the engine the image was taken from.",
      "simulated-disk fault enumeration (torn/short/stale/bit-flip/marker) with allocator accounting and process isolation","DESIGN.md section 4 (C10)",
      "Trusted base: the fault generator and msgpack walker, the allocator accounting, catch_unwind. Buffers are sampled (16 quick / 400 thorough); per buffer the listed single-fault kinds are complete.", level="fault_enumeration"),
  chk("C19","Seeded schedule search with shuttle over the real thread-safe build (sources of /repo with std::sync/std::thread redirected to shuttle in a generated copy): 1-3 concurrent phases of 2-4 threads x 1-6 mixed queries (incl. the same URL on behalf of a page inside and a page outside a rule's $domain list) on one shared Arc<Engine>/Arc<Blocker> (tag switch / optimize / reload / resource change under exclusive access between phases), or long-lived workers behind Arc<RwLock<..>> with a mutator thread, optionally a second engine queried concurrently; regex-heavy rules, aggressive or default-like discard policy, seeded address reuse, a clock advancing on every read, scheduling points inside RegexManager, thread_local! of the crate redirected to shuttle; every concurrent answer must equal a sequentially queried twin, with no deadlock, poison, panic or two threads inside the regex manager. Plus a seed-for-seed differential of 1600 (quick) C06 histories between the default and the thread-safe build, and a compile check of the thread-safe configuration (static Send+Sync assertion).",
